@@ -328,6 +328,10 @@ func (x *Exec) wf(v Value, alloc *Term) *Term {
 				lim := c.bigInt(pow2(63))
 				fs = append(fs, c.IntCmp(">=", v.L[k], c.IntBin("-", c.IntLit(0), lim)), c.IntCmp("<", v.L[k], lim))
 			}
+			if lf.Sort == StrSort { // a Go string has a length in [0, 2^48] (same ceiling as slices)
+				ln := c.App(x.strLenFn(), v.L[k])
+				fs = append(fs, c.BVCmp("bvsle", c.BVI(0, 64), ln), c.BVCmp("bvsle", ln, c.BVU(1<<48, 64)))
+			}
 		case "ref":
 			fs = append(fs, c.IntCmp("<=", v.L[k], alloc))
 		case "base":
@@ -348,7 +352,7 @@ func (x *Exec) wf(v Value, alloc *Term) *Term {
 func (x *Exec) StoreVal(st *State, p Value, v Value) {
 	pi := x.ptrInfo(p)
 	lay := LayoutOf(v.T)
-	if v.P != nil && !(v.P.Kind == PObj && v.P.Off == 0) && v.P.Kind != PArr {
+	if !wholeObjectPtr(v) && v.P.Kind != PArr {
 		panic(unsupported("interior pointer stored to memory"))
 	}
 	if pi.Kind == PArr || pi.Kind == PElem {
